@@ -57,6 +57,13 @@ def reservation_scope(namespace, binding):
 
     namespaces = {namespace}
 
+    # Since Python 3.12 (PEP 709) list, set and dict comprehensions are inlined into the function that contains them,
+    # where other nested functions can see their names. The name must be free in that function too.
+    node = namespace
+    while isinstance(node, (ast.ListComp, ast.SetComp, ast.DictComp)):
+        node = node.namespace
+        namespaces.add(node)
+
     for node in binding.references:
         parent = getattr(node, '_parent', None)
         if isinstance(parent, ast.NamedExpr) and parent.target is node:
